@@ -176,7 +176,19 @@ def congruent_on_path(interp, a, b, m):
         return True
     d = expand_mods(interp.resolve(Lin.of(a) - Lin.of(b)), m)
     lo, hi = interp.lin_interval(d)
-    return lo == hi and lo % m == 0
+    if lo == hi and lo % m == 0:
+        return True
+    # equations the path has established (a comparison that came out as Q == c): add or subtract one of them
+    d0 = interp.resolve(Lin.of(a) - Lin.of(b))
+    for sh, q in getattr(interp, "refine_src", {}).items():
+        qlo, qhi = interp.lin_interval(q)  # (the refinement together with the symbols' own bounds)
+        if qlo != qhi or qlo in (INF, -INF):
+            continue
+        eq = q - Lin({}, qlo)  # == 0 on this path
+        for k in (1, -1):
+            if congruent(d0 + eq.scale(k), Lin({}, 0), m):
+                return True
+    return False
 
 
 # ---------------------------------------------------------------------------- keys oracle
